@@ -15,18 +15,38 @@ package base58
 //@   loop 2 decreases len(b) - numZeros
 
 //@ func base58.Encode
+//@   ensures len(result) >= b58.lz(b, 0, len(b))
+//@   ensures b58.rest(big.be(b, len(b)), len(result) - b58.lz(b, 0, len(b))) == 0
+//@   ensures len(result) > b58.lz(b, 0, len(b)) ==> b58.rest(big.be(b, len(b)), len(result) - b58.lz(b, 0, len(b)) - 1) > 0
+//@   ensures forall k :: 0 <= k && k < len(result) ==> result[k] == b58.lsb(big.be(b, len(b)), len(result) - b58.lz(b, 0, len(b)), len(result) - 1 - k)
 //@   modifies nothing
 //@   loop 1 invariant x != nil && fresh(x) && *x >= 0 && freshornil(answer)
+//@   loop 1 invariant *x == b58.rest(big.be(b, len(b)), len(answer)) && (len(answer) > 0 ==> b58.rest(big.be(b, len(b)), len(answer) - 1) > 0)
+//@   loop 1 invariant forall k :: 0 <= k && k < len(answer) ==> answer[k] == b58.chr(b58.rest(big.be(b, len(b)), k) % 58)
 //@   loop 1 decreases *x
-//@   loop 2 invariant freshornil(answer)
+//@   opaque b58.chr
+//@   revealin assert.1: b58.chr
+//@   assert after append#1: $ret[len($ret) - 1] == b58.chr(b58.rest(big.be(b, len(b)), len($ret) - 1) % 58)
+//@   loop 2 invariant freshornil(answer) && len(answer) >= $i
+//@   loop 2 invariant b58.lz(b, 0, len(b)) == $i + b58.lz(b, $i, len(b))
+//@   loop 2 invariant b58.rest(big.be(b, len(b)), len(answer) - $i) == 0 && (len(answer) > $i ==> b58.rest(big.be(b, len(b)), len(answer) - $i - 1) > 0)
+//@   loop 2 invariant forall k :: 0 <= k && k < len(answer) ==> answer[k] == b58.lsb(big.be(b, len(b)), len(answer) - $i, k)
 //@   loop 3 invariant 0 <= i && i <= alen / 2 && alen == len(answer) && freshornil(answer)
+//@   loop 3 invariant alen >= b58.lz(b, 0, len(b)) && b58.rest(big.be(b, len(b)), alen - b58.lz(b, 0, len(b))) == 0 && (alen > b58.lz(b, 0, len(b)) ==> b58.rest(big.be(b, len(b)), alen - b58.lz(b, 0, len(b)) - 1) > 0)
+//@   loop 3 invariant forall k :: 0 <= k && k < alen ==> answer[k] == b58.lsb(big.be(b, len(b)), alen - b58.lz(b, 0, len(b)), ((k < i || k >= alen - i) ? alen - 1 - k : k))
 //@   loop 3 decreases alen / 2 - i
 
 //@ func base58.checksum
+//@   ensures $calls_Sum256 == 2
 //@   modifies nothing
+//@   assert after Sum256#1: sameobj($arg0, input) && $arg0.off == input.off && len($arg0) == len(input)
+//@   assert after Sum256#2: len($arg0) == 32 && forall k :: 0 <= k && k < 32 ==> $arg0[k] == h[k]
+//@   assert after copy#1: forall k :: 0 <= k && k < 4 ==> cksum[k] == h2[k]
 
 //@ func base58.CheckEncode
 //@   modifies nothing
+//@   assert after checksum#1: len($arg0) == 1 + len(input) && $arg0[0] == version && forall k :: 0 <= k && k < len(input) ==> $arg0[1 + k] == input[k]
+//@   assert after Encode#1: len($arg0) == 5 + len(input) && $arg0[0] == version && (forall k :: 0 <= k && k < len(input) ==> $arg0[1 + k] == input[k]) && (forall k :: 0 <= k && k < 4 ==> $arg0[1 + len(input) + k] == cksum[k])
 
 //@ func base58.CheckDecode
 //@   ensures err == nil ==> freshornil(result)
